@@ -22,7 +22,7 @@ def main():
         if a.startswith("--props"):
             extra = sys.argv[sys.argv.index(a) + 1].split(",")
     wt = f"/tmp/seedwt/{pid}"
-    out = f"/tmp/seedwt/{pid}_out9" if x in "QR" else f"/tmp/seedwt/{pid}_out8" if x in "OP" else f"/tmp/seedwt/{pid}_out7" if x in "MN" else f"/tmp/seedwt/{pid}_out6" if x in "KL" else f"/tmp/seedwt/{pid}_out5" if x in "IJ" else f"/tmp/seedwt/{pid}_out4" if x in "GH" else f"/tmp/seedwt/{pid}_out3" if x in "EF" else (f"/tmp/seedwt/{pid}_out2" if x in "CD" else f"/tmp/seedwt/{pid}_out")
+    out = f"/tmp/seedwt/{pid}_out10" if x in "ST" else f"/tmp/seedwt/{pid}_out9" if x in "QR" else f"/tmp/seedwt/{pid}_out8" if x in "OP" else f"/tmp/seedwt/{pid}_out7" if x in "MN" else f"/tmp/seedwt/{pid}_out6" if x in "KL" else f"/tmp/seedwt/{pid}_out5" if x in "IJ" else f"/tmp/seedwt/{pid}_out4" if x in "GH" else f"/tmp/seedwt/{pid}_out3" if x in "EF" else (f"/tmp/seedwt/{pid}_out2" if x in "CD" else f"/tmp/seedwt/{pid}_out")
     patch, demo, meta = f"{out}/patch{x}.diff", f"{out}/demo{x}.py", f"{out}/meta{x}.json"
     rep = {"id": f"{pid}-{x}", "property": pid}
     env = dict(os.environ, NUMBA_CACHE_DIR=f"{out}/nc_check", PYTHONDONTWRITEBYTECODE="1")
